@@ -633,6 +633,9 @@ fn corpus() -> Vec<(&'static str, bool)> {
         ("SELECT unnest(make_array(x, y, 7)) AS u, s FROM a", true),
         ("SELECT unnest(make_array(make_array(x), make_array(y, 1))) FROM a", true),
         ("WITH RECURSIVE r AS (SELECT 1 AS n UNION ALL SELECT n + 1 FROM r WHERE n < 5) SELECT * FROM r", true),
+        // distinct recursion (RecursiveQuery.is_distinct = true); both terminate even if the flag were lost
+        ("WITH RECURSIVE r AS (SELECT 1 AS n UNION SELECT n + 1 FROM r WHERE n < 5) SELECT * FROM r", true),
+        ("WITH RECURSIVE r AS (SELECT 1 AS n UNION SELECT n + 1 FROM r, (VALUES (10), (20)) AS v(k) WHERE n < 4) SELECT n FROM r ORDER BY n", true),
         ("SELECT a.x, b.z FROM a JOIN b USING (x)", true),
         ("SELECT a.x, b.z FROM a LEFT JOIN b ON a.x = b.x AND a.y > b.z", true),
         ("SELECT a.x, b.z FROM a RIGHT JOIN b ON a.x = b.x", true),
